@@ -479,6 +479,79 @@ def replay_template(cex):
     return len(bad) > 0, {"n_problems": len(bad), "problems": bad[:5]}
 
 
+def replay_footprint(cex):
+    """installed library: find_maxima with an exclusion distance of exactly 1, 1.5, 2 voxels on an asymmetric blob and on two nearby peaks: only strict local maxima within the closed ball survive"""
+    from acryo.pick._concrete import find_maxima
+
+    zz = np.indices((15, 15, 15)).astype(float)
+    blob = np.exp(-((zz[0] - 7) ** 2 / 8.0 + (zz[1] - 7) ** 2 / 3.0 + (zz[2] - 6.6) ** 2 / 5.0)) * (1 + 0.08 * (zz[2] - 7))
+    bad = {}
+    for r in (1.0, 1.5, 2.0, 3.0):
+        got = np.asarray(find_maxima(blob.astype(np.float32), r, 0.2))
+        want = np.array(np.unravel_index(np.argmax(blob), blob.shape), dtype=float)
+        if got.shape != (1, 3) or np.abs(got[0] - want).max() > 1e-6:
+            bad[f"asymmetric blob, radius {r}"] = {"picks": got.round(3).tolist(), "maximum_at": want.tolist()}
+    two = np.zeros((9, 9, 12), dtype=np.float32)
+    two[4, 4, 3] = 1.0
+    two[4, 4, 4] = 0.6   # a shoulder next to the first peak: inside its exclusion ball of radius 1
+    two[4, 4, 8] = 0.9
+    got = np.asarray(find_maxima(two, 1.0, 0.1))
+    if sorted(map(tuple, got.round(3).tolist())) != [(4.0, 4.0, 3.0), (4.0, 4.0, 8.0)]:
+        bad["peak with a shoulder at distance 1, radius 1"] = got.round(3).tolist()
+    return len(bad) > 0, {"problems": bad}
+
+
+def sec_footprint(rec, patches=None):
+    """the exclusion footprint of find_maxima is the CLOSED ball of the given radius (a neighbour at distance exactly `radius` suppresses), identity below 1 voxel; radius symbolic in [0, 3]"""
+    L = _load(patches)
+    PC = L["acryo.pick._concrete"]
+    rec.encodes("acryo/pick/_concrete.py:maximum_filter (footprint)", "acryo/pick/_concrete.py:find_maxima")
+    rec.assume("scipy.ndimage.maximum_filter is recorded (footprint and mode); its own semantics are scipy's")
+    r = real("radius")
+    hyps = [r.e >= 0, r.e <= 3]
+    calls = []
+
+    class Ndi:
+        def maximum_filter(self, image, footprint=None, mode=None, **kw):
+            calls.append((footprint, mode, kw))
+            return image
+
+    PC.ndi = Ndi()
+    img = np.zeros((3, 3, 3), dtype=np.float32)
+
+    def run():
+        del calls[:]
+        out = PC.maximum_filter(img, r)
+        return out, list(calls)
+
+    for pi, pth in enumerate(explore(run, assumptions=hyps, max_paths=40)):
+        h = hyps + [pth.condition()]
+        if not pth.ok:
+            rec.fact(f"footprint/path{pi}/runs", False, key="C20/footprint/raises", detail={"exc": repr(pth.exc)[:200]}, reproduced=replay_footprint({})[0])
+            continue
+        out, cl = pth.result
+        if not cl:
+            rec.query(f"footprint/path{pi}/no-filter=>radius<1", h, r.e < 1, key="C20/footprint/identity-range", replay=replay_footprint, names={"radius"})
+            continue
+        rec.query(f"footprint/path{pi}/filter=>radius>=1", h, r.e >= 1, key="C20/footprint/identity-range", replay=replay_footprint, names={"radius"})
+        foot, mode, kw = cl[0]
+        F = _obj(to_symarray(foot)) if not isinstance(foot, np.ndarray) or foot.dtype == object else foot
+        n = F.shape[0]
+        okc = F.ndim == 3 and len(set(F.shape)) == 1 and n % 2 == 1 and mode == "nearest"
+        rec.fact(f"footprint/path{pi}/odd-cube,mode=nearest", bool(okc), key="C20/footprint/shape", detail={"shape": list(F.shape), "mode": mode}, reproduced=True if okc else replay_footprint({})[0])
+        if not okc:
+            continue
+        c = n // 2
+        rec.query(f"footprint/path{pi}/cube-holds-the-ball", h, z3.RealVal(c) >= r.e, key="C20/footprint/cube-too-small", replay=replay_footprint, names={"radius"})
+        from symx.core import SymBool
+
+        for idx in np.ndindex(F.shape):
+            d2 = sum((i - c) ** 2 for i in idx)
+            v = F[idx]
+            term = v.e if isinstance(v, SymBool) else z3.BoolVal(bool(v))
+            rec.query(f"footprint/path{pi}/offset{tuple(i - c for i in idx)}<=>|d|<=radius", h, term == (z3.RealVal(d2) <= r.e * r.e), key="C20/footprint/closed-ball", replay=replay_footprint, names={"radius"}, nonlinear=True, twin=False)
+
+
 def sec_template(rec, shape=(4, 2, 6), K=3, patches=None):
     L = _load(patches)
     PB, PC = L["acryo.pick._base"], L["acryo.pick._concrete"]
@@ -691,7 +764,7 @@ def sec_tm_chunks(rec, shape=(4, 2, 6), N=(12, 6, 8), chunks=((6, 6), (6,), (8,)
 
 def sections(tier):
     q = quick(tier)
-    secs = [("depth", "checks.c20", "sec_depth", {})]
+    secs = [("depth", "checks.c20", "sec_depth", {}), ("footprint", "checks.c20", "sec_footprint", {})]
     cfgs = [("log", (12, 6, 5), ((6, 6), (6,), (5,)), 1, 1), ("log", (6, 12, 5), ((6,), (4, 4, 4), (5,)), 1, 2), ("dog", (5, 6, 12), ((5,), (6,), (7, 5)), 1, 3),
             ("log", (12, 6, 5), ((6, 6), (6,), (5,)), 1, 2), ("log", (12, 6, 5), ((2,) * 6, (6,), (5,)), 1, 0), ("log", (12, 3, 5), ((6, 6), (3,), (5,)), 1, 0), ("log", (16, 4, 4), ((8, 8), (4,), (4,)), 2, 0)]
     if not q:
@@ -761,7 +834,7 @@ def run(tier, procs=None, only=None):
 
 
 # every real-library oracle of this property (each returns (reproduced, detail)); used to confirm structural facts that carry no replay of their own
-ALL_REPLAYS = [lambda c: replay_chunks('log', (12, 6, 5), ((6, 6), (6,), (5,)))(c), replay_template]
+ALL_REPLAYS = [lambda c: replay_chunks('log', (12, 6, 5), ((6, 6), (6,), (5,)))(c), replay_template, replay_footprint]
 
 
 def replay(data):
@@ -777,6 +850,11 @@ def replay(data):
             b = ast.literal_eval(m.group(1))
         except Exception:
             b = None
+    if "footprint" in data.get("key", ""):
+        ok, detail = replay_footprint({})
+        print("replay:", detail)
+        print("REPRODUCED" if ok else "not reproduced")
+        return 1 if ok else 0
     if "tm" in data.get("key", "") or "template" in label:
         ok, detail = replay_template({})
     else:
